@@ -212,7 +212,7 @@ pub fn cases(refs: &Refs, quick: bool, warm: bool) -> Vec<Case> {
 		// characters that need care in Rust source, in valid and invalid positions
 		for extra in [
 			"s:\"", "s:a\\b", "s:{}", "s:#\"#", "s:%7B%7D", "s:a#\"##x", "s://h/a?q={x}#f", "s:\n", "s:\t", "s:\u{0}", "s:\u{7f}", "s:é", "s:\u{E000}", "s:?\u{E000}",
-			"s:\u{FFFD}", "s:\u{10FFFD}", "s:\u{202E}", "//é@é/é?é#é", "s:/\u{1F600}", "a b", "s:a b", "s:%", "s:%4", "s:%41", "s:%zz", "", "#", "?", "s:", ":", "1:", "s://[::1]:80/", "s://[::1/", "s://h:8x/",
+			"s:\u{FFFD}", "s:\u{10FFFD}", "s:\u{202E}", "//é@é/é?é#é", "s:/\u{1F600}", "a b", "s:a b", "s:%", "s:%4", "s:%41", "s:%zz", "", "#", "?", "s:", ":", "1:", "s://[::1]:80/", "s://[::1/", "s://h:8x/", "<s:a>", "<>", "<../a#b>", "<s:a", "s:a>", "(s:a)", "\"s:a\"", " s:a", "s:a ", "s:a\n",
 		] {
 			texts.insert(extra.to_string());
 		}
